@@ -149,6 +149,15 @@ func runShortest(c *corridor) {
 	select {
 	case <-done:
 	case <-time.After(2 * time.Second):
+		if c.Class != "any" {
+			// inside the router's class a call that is still running after 2 s is far more likely a busy machine than
+			// a loop: give it another half minute before calling it one
+			select {
+			case <-done:
+				return
+			case <-time.After(30 * time.Second):
+			}
+		}
 		c.Outcome = 2
 	}
 }
